@@ -33,6 +33,8 @@ def H(**kw):
                      else "scrypt::verif_scrypt" if n.startswith("c18_") else "verif_wrap")
     # Kani's per-assertion reachability instrumentation doubles the checks and adds one solver call per
     # assertion; vacuity is guarded by explicit kani::cover! witnesses instead (DESIGN.md 1.3)
+    if kw["name"].startswith(("dec_attack", "dec_faults")):
+        kw.setdefault("model_only", ["every chunk authenticated before it has already been written"])
     kw.setdefault("kani_args", ["--no-assertion-reach-checks"])
     HARNESSES.append(kw)
 
